@@ -123,7 +123,116 @@ def scan_skip_rule(ck, P):
                  "an entry is skipped although nothing failed: %s — valid tiles or levels are dropped while the container is opened" % bad[:3], ir.loc(b))
 
 
+def mb_reader_rules(ck, P):
+    """R-MB-READ: the MBTiles reader reads what the schema says.
+    cols   every row.get(i) inside the row callback of a statement prepared from a constant SELECT addresses the column the
+           value is used as: tile_data for blobs, tile_column / tile_row / zoom_level for x / (flipped) y / z, name / value for the
+           metadata record fields of the same name.
+    guard  the lookup refuses a coordinate only for y > 2^z - 1 (a row on the last line of the grid is a valid tile).
+    meta   the format and compression found in the metadata table end up in the reader's parameters; recognised string keys are stored
+           under their own key."""
+    import re as _re
+    bodies = [b for b in P.bodies if "::mbtiles::reader::MBTilesReader" in b["q"] and "::tests::" not in b["q"]]
+    if not ck.anchor("R-MB-READ", "MBTilesReader methods", bodies, 5):
+        return
+    n_get, bad = 0, []
+    for b in bodies:
+        sqls = []
+        for y in ir.walk_nodes(b["body"]):
+            if y.get("k") == "mcall" and (y.get("q") or "").endswith("Connection::prepare") and y.get("a"):
+                v = ir.const_eval_str(y["a"][0])
+                if v:
+                    sqls.append(v)
+        if len(sqls) != 1:
+            continue
+        m_ = _re.match(r"\s*SELECT\s+(.*?)\s+FROM\s", sqls[0], _re.I | _re.S)
+        if not m_:
+            continue
+        cols = [c.strip() for c in m_.group(1).split(",")]
+        for clo in [y for y in ir.walk_nodes(b["body"]) if y.get("k") == "closure"]:
+            for g, parents, _ in ir.walk(clo["body"]):
+                if not (g.get("k") == "mcall" and (g.get("q") or "").endswith("Row::get") and g.get("a")):
+                    continue
+                i = ir.const_eval(g["a"][0], {})
+                n_get += 1
+                if i is None or not 0 <= i < len(cols):
+                    bad.append("%s: row.get(%s) with %d selected column(s)" % (ir.loc(g), i, len(cols)))
+                    continue
+                col = cols[i].lower()
+                # the role the value plays
+                role = None
+                for p_ in reversed(parents):
+                    if p_.get("k") == "struct":
+                        f_ = [f["name"] for f in p_.get("fields", ()) if ir.contains(f["e"], lambda z: z is g)]
+                        role = f_[0] if f_ else None
+                        break
+                    if p_.get("k") == "call" and (p_.get("q") or "").endswith("TileCoord3::new") and len(p_.get("a", ())) == 3:
+                        k_ = next((j for j, a_ in enumerate(p_["a"]) if a_ is g or ir.contains(a_, lambda z: z is g)), None)
+                        role = {0: "tile_column", 1: "tile_row", 2: "zoom_level"}.get(k_)
+                        break
+                    if p_.get("k") == "call" and (p_.get("q") or "").endswith(("Blob::from", "From::from")) and "Blob" in (p_.get("t") or ""):
+                        role = "tile_data"
+                        break
+                if role is None and "Vec<u8>" in (g.get("t") or ""):
+                    role = "tile_data"
+                if role is not None and role != col:
+                    bad.append("%s: column %d of `%s` is `%s` but the value is used as %s" % (ir.loc(g), i, m_.group(1), col, role))
+    ck.anchor("R-MB-READ", "row.get calls under constant SELECTs", n_get, 7)
+    ck.check(not bad, "R-MB-READ", "cols", "every row.get(i) reads the column it is used as (%d reads)" % n_get, "MBTiles rows are read from the wrong column: %s" % bad[:3])
+    # guard
+    from . import census
+    look = [b for b in bodies if b.get("trait_item", "").endswith("TilesReaderTrait::get_tile_data")]
+    if look:
+        b = look[0]
+        lets = comp.lets_of(b)
+        rets = [(n, f) for n, f in census.nodes_with_facts(ir.fn_block(b), lambda y: y.get("k") == "ret") if f]
+        okg, shown = False, "no guarded early return"
+        for n, fs in rets:
+            cm = [f for f in fs if f[0] == "cmp"]
+            if cm:
+                f = cm[-1]
+                shown = " ".join(map(str, f[1:]))
+                okg = (f[1].endswith(".y") and f[2] == ">" and not f[3].isdigit()) or (f[3].endswith(".y") and f[2] == "<" and not f[1].isdigit())
+                # the bound is 2^z - 1
+                bnd = f[3] if f[1].endswith(".y") else f[1]
+                bh = [h for h, init in lets.items() if ir.contains(ir.fn_block(b), lambda y: y.get("k") == "path" and y.get("r") == "local" and y.get("hid") == h and y.get("name") == bnd)]
+                if okg and bh:
+                    from . import affine as A
+                    t = A.ev(lets[bh[0]], A.Env())
+                    okg = A.as_const(A.add(t, A.const(1))) is None and "pow" in A.show(t) and A.show(A.add(t, A.const(1))).count("+") == 0
+        ck.check(okg, "R-MB-READ", b["q"] + "|guard", "a lookup is refused before the query only for y > 2^z - 1 (guard `%s`)" % shown,
+                 "the row guard of the MBTiles lookup is `%s`: it must refuse exactly the rows beyond the grid (y > 2^z - 1), a tile on the last row is valid" % shown, ir.loc(b))
+    lm = [b for b in bodies if b["q"].endswith("MBTilesReader::load_meta_data")]
+    if lm:
+        b = lm[0]
+        asg = {}
+        for y in ir.walk_nodes(b["body"]):
+            if y.get("k") == "assign" and ir.place_str(y["l"]).startswith("self.parameters."):
+                asg[ir.place_str(y["l"]).rsplit(".", 1)[-1]] = y
+        okp = True
+        for fld, ty in (("tile_format", "TileFormat"), ("tile_compression", "TileCompression")):
+            y = asg.get(fld)
+            src = ir.local_hid(ir.strip(y["r"])["e"]) if y is not None and ir.strip(y["r"]).get("k") == "try" else (ir.local_hid(y["r"]) if y is not None else None)
+            # that local is the one the format arms assign Ok(<variant of ty>) to
+            fed = src is not None and any(z.get("k") == "assign" and ir.local_hid(z["l"]) == src and ty + "::" in str([w.get("q") for w in ir.walk_nodes(z["r"])]) for z in ir.walk_nodes(b["body"]))
+            okp = okp and fed
+        ck.check(okp, "R-MB-READ", b["q"] + "|parameters", "the format / compression recognised in the metadata table are stored in the reader's parameters",
+                 "the tile format or compression found in the metadata table does not reach the reader's parameters", ir.loc(b))
+        ss = [y for y in ir.walk_nodes(b["body"]) if y.get("k") == "mcall" and (y.get("q") or "").endswith(("TileJSON::set_string", "TileJSON::set_byte")) and len(y.get("a", ())) == 2]
+        kv = {}
+        for y in ir.walk_nodes(b["body"]):
+            if y.get("k") == "let" and "init" in y and y["pat"].get("k") == "bind":
+                fl = [z.get("name") for z in ir.walk_nodes(y["init"]) if z.get("k") == "field"]
+                if fl:
+                    kv[y["pat"]["hid"]] = fl[0]
+        oks = len(ss) >= 2 and all(kv.get(ir.local_hid(y["a"][0])) == "name" and kv.get(next((z["hid"] for z in ir.walk_nodes(y["a"][1]) if z.get("k") == "path" and z.get("r") == "local"), None)) == "value" for y in ss)
+        others = all(ir.contains(b["body"], lambda y, nm=nm: y.get("k") == "mcall" and (y.get("q") or "").endswith(nm)) for nm in ("TileJSON::limit_bbox", "TileJSON::set_vector_layers"))
+        ck.check(oks and others, "R-MB-READ", b["q"] + "|tilejson", "metadata rows reach the TileJSON as (row.name -> key, row.value -> value); bounds and vector_layers are taken over",
+                 "metadata rows are not stored under their own key with their own value, or bounds / vector_layers are dropped", ir.loc(b))
+
+
 def rules(ck, P):
+    mb_reader_rules(ck, P)
     fixed_reads_rule(ck, P)
     scan_skip_rule(ck, P)
     # ---------------- R-SQL-NULL
